@@ -33,8 +33,8 @@ func (y yieldStd) Panicln(a ...interface{}) { y.emit(); panic(a) }
 type YieldLogger struct{ *plog.Levellified }
 
 func (l YieldLogger) WithField(string, interface{}) plog.Logger { return l }
-func (l YieldLogger) WithFields(plog.Fields) plog.Logger       { return l }
-func (l YieldLogger) WithError(error) plog.Logger              { return l }
+func (l YieldLogger) WithFields(plog.Fields) plog.Logger        { return l }
+func (l YieldLogger) WithError(error) plog.Logger               { return l }
 
 // UseYieldLogger installs the logger for the whole process.
 func UseYieldLogger() {
